@@ -240,7 +240,10 @@ func cmdCheck(args []string) int {
 		var kf *KnownFinding
 		for i := range known.Findings {
 			k := &known.Findings[i]
-			if k.Property == *prop && k.Obligation == f.name {
+			// matched without back-edge / call-site ordinals: a harmless extra `continue` or call in the
+			// function renumbers them, and the restricted re-proof below decides whether what fails is
+			// the listed finding (it is re-proved under the actual name)
+			if k.Property == *prop && ordinalRe.ReplaceAllString(k.Obligation, "") == ordinalRe.ReplaceAllString(f.name, "") {
 				kf = k
 			}
 		}
@@ -645,7 +648,7 @@ func cmdSelftest(args []string) int {
 			for _, f := range failed {
 				listed := false
 				for _, k := range known.Findings {
-					if k.Obligation == f {
+					if ordinalRe.ReplaceAllString(k.Obligation, "") == ordinalRe.ReplaceAllString(f, "") {
 						listed = true
 					}
 				}
